@@ -168,28 +168,35 @@ def stoi (s : Option String) : Except String Nat :=
   | some t => if isNatTok t then pure t.toNat! else throw s!"stoi({t})"
   | none => throw "stoi(null)"
 
+/-- a natural-valued option: the documented default when absent, `stoi` of the next token otherwise -/
+def optNat (argv : List String) (name : String) (dflt : Nat) : Except String Nat :=
+  if hasOpt argv name then stoi (getOpt argv name) else pure dflt
+
+/-- a string-valued option -/
+def optStr (argv : List String) (name : String) (dflt : String) : Except String String :=
+  if hasOpt argv name then
+    match getOpt argv name with
+    | some v => pure v
+    | none => throw "null"
+  else pure dflt
+
+/-- multitensor.cpp:101-141: every documented option, in the order the code reads them -/
+def parseOpts (argv : List String) : Except String Opts :=
+  if !hasOpt argv "--k" then .error "Please specify the number of groups (--k option)."
+  else
+    match stoi (getOpt argv "--k"), optStr argv "--a" "adjacency.dat", optStr argv "--w" "",
+          optStr argv "--o" "results", optNat argv "--r" 1, optStr argv "--s" "random",
+          optNat argv "--maxit" 500, optNat argv "--y" 10 with
+    | .ok k, .ok a, .ok w, .ok o, .ok r, .ok s, .ok maxit, .ok y =>
+      .ok { k, adjacency := a, affinity := w, output := o, directed := !hasOpt argv "--undirected",
+            assortative := hasOpt argv "--assortative", r, maxit, y, seed := s }
+    | _, _, _, _, _, _, _, _ => .error "bad option value"
+
 def parseArgs (argv : List String) : ArgResult :=
   if hasOpt argv "--help" then .help
   else if hasOpt argv "--version" then .version
   else
-    let r : Except String Opts := do
-      if !hasOpt argv "--k" then throw "Please specify the number of groups (--k option)."
-      let mut o : Opts := { k := ← stoi (getOpt argv "--k") }
-      if hasOpt argv "--a" then
-        o := { o with adjacency := ← (getOpt argv "--a").elim (throw "null") pure }
-      if hasOpt argv "--w" then
-        o := { o with affinity := ← (getOpt argv "--w").elim (throw "null") pure }
-      if hasOpt argv "--undirected" then o := { o with directed := false }
-      if hasOpt argv "--assortative" then o := { o with assortative := true }
-      if hasOpt argv "--o" then
-        o := { o with output := ← (getOpt argv "--o").elim (throw "null") pure }
-      if hasOpt argv "--r" then o := { o with r := ← stoi (getOpt argv "--r") }
-      if hasOpt argv "--s" then
-        o := { o with seed := ← (getOpt argv "--s").elim (throw "null") pure }
-      if hasOpt argv "--maxit" then o := { o with maxit := ← stoi (getOpt argv "--maxit") }
-      if hasOpt argv "--y" then o := { o with y := ← stoi (getOpt argv "--y") }
-      pure o
-    match r with
+    match parseOpts argv with
     | .ok o => .run o
     | .error e => .error e
 
